@@ -138,6 +138,11 @@ def cancelled(trace, timer, falsy, cond):
         if kind(c) == 'cmp' and c[2] == timer and c[3] == NONE and \
                 ((c[1] == 'is') == pol):
             return True, 'no timer on this path'
+        # IDelayedCall.active() false: it already ran or was cancelled
+        if kind(c) == 'call' and kind(c[2]) == 'attr' and \
+                c[2][2] == 'active' and c[2][1] == timer and not c[3] \
+                and not pol:
+            return True, 'the timer is no longer active on this path'
     for ev in trace:
         if ev[0] == 'call':
             c = ev[1]
@@ -335,6 +340,15 @@ def run(ctx):
                                 else None, 'how': 'timer-args'}
                     if info is None:
                         continue
+                    if info['how'] in ('get', 'pop', 'index') and contains(
+                            info['key'], lambda x: kind(x) in (
+                                'elem', 'loopvar') and contains(
+                                    x, lambda y: kind(y) == 'attr' and
+                                    y[2] == TABLE)):
+                        # the key is an element of the table itself (a walk
+                        # over a snapshot of its keys): every entry is
+                        # completed, none is matched against a reply
+                        info = dict(info, how='iter-' + info['how'])
                     if is_timer:
                         timer_cb_fired[0] = True
                     n_fire += 1
@@ -431,6 +445,39 @@ def run(ctx):
                         ctx.ob('C08.D4', q, 'delivers-matching-reply', ok,
                                'the call must complete with the reply '
                                'message that carried the matching serial')
+    # a reply is matched by its serial ALONE: every path of the two reply
+    # handlers consults the table under reply_serial - a path that returns
+    # before (because some other field of the reply did not please) leaves
+    # the call pending for ever
+    for hname in ('methodReturnReceived', 'errorReceived'):
+        q = CLS + '.' + hname
+        fi = prog.func(q)
+        msg = ('param', fi.params()[1])
+        key = ('attr', msg, 'reply_serial')
+        n_paths = 0
+        for p in paths_of(q):
+            if p.outcome == 'raise':
+                continue
+            n_paths += 1
+            looked = any(
+                contains(t, lambda x: (
+                    kind(x) == 'call' and kind(x[2]) == 'attr' and
+                    is_table(x[2][1]) and x[2][2] in ('get', 'pop') and
+                    x[3] and x[3][0] == key) or (
+                    kind(x) == 'sub' and is_table(x[1]) and x[2] == key) or (
+                    kind(x) == 'cmp' and x[1] in ('in', 'not in') and
+                    x[2] == key and is_table(x[3])))
+                for t in [c for c, _ in p.cond] + [
+                    ev[1] for ev in iter_events(p.trace) if ev[0] == 'call'])
+            ctx.ob('C08.D4', q, 'every-reply-is-looked-up', looked,
+                   'a reply is discarded on a path that never looks its '
+                   'reply_serial up in the pending table [%s]: the call it '
+                   'answers stays pending (or times out) although its reply '
+                   'arrived' % '; '.join(
+                       '%s is %s' % (term_str(c)[:60], pol)
+                       for c, pol in p.cond[:3]))
+        if n_paths == 0:
+            raise AnalysisError('%s: no path' % q)
     # the deadline handler runs because the timer FIRED: whatever it decides,
     # the entry (which holds that dead timer) must leave the table - a later
     # connectionLost cancels every timer it finds there, and cancelling a
